@@ -200,6 +200,9 @@ pub struct Sim<const M: usize> {
     pub force_fallible: Option<bool>,
     /// behaviour of the initialiser of slice try-fill ops: 0 nothing, 1 allocate+keep, 2 allocate+release
     pub slice_inner: u8,
+    /// the allocator lost events (ring overflow): the ledger can no longer be trusted, the history
+    /// is abandoned and reported as inconclusive
+    pub poisoned: bool,
 }
 
 pub fn round_up(n: usize, a: usize) -> usize {
@@ -260,6 +263,7 @@ impl<const M: usize> Sim<M> {
             limit_mode: 0,
             force_fallible: None,
             slice_inner: 0,
+            poisoned: false,
         };
         if let Some(c) = cap {
             if !s.reconstruct(rep, Some(c), fallible_ctor) {
@@ -401,7 +405,12 @@ impl<const M: usize> Sim<M> {
             );
         }
         if halloc::overflowed() {
-            rep.inconclusive.push("event ring / table overflow".into());
+            let _p = halloc::pause();
+            rep.inconclusive.push(format!("event ring / table overflow during `{}` ({} events)", self.cur, ev.len()));
+            self.poisoned = true;
+        }
+        if self.poisoned {
+            return;
         }
         let may_free = matches!(kind, OpKind::Reset | OpKind::Drop);
         let mut acquired = 0usize;
@@ -464,6 +473,12 @@ impl<const M: usize> Sim<M> {
     /// Run the structural monitors after an op (events already ingested by `end`).
     pub fn after_op(&mut self, rep: &mut Report, kind: OpKind, _ev: &[Event]) {
         self.opno += 1;
+        if self.poisoned {
+            if kind == OpKind::Drop {
+                self.chunks.clear();
+            }
+            return;
+        }
         let acquired = self.acquired;
         let released = self.released;
         self.acquired = 0;
@@ -669,6 +684,9 @@ impl<const M: usize> Sim<M> {
         let addr = ptr as usize;
         let id = self.next_id;
         self.next_id += 1;
+        if self.poisoned {
+            return None;
+        }
         if addr == 0 {
             rep.violate("C01", format!("C01/null-pointer/{}", what), self.cur.clone());
             return None;
@@ -727,6 +745,9 @@ impl<const M: usize> Sim<M> {
                 rep.violate("C11", "C11/block-kept-by-failed-initialiser-handed-out-again", format!("new [{:#x},{:#x}) overlaps kept id {} [{:#x},{:#x}) ({})", addr, end, i, a, a + s, self.cur));
             }
             rep.violate("C01", format!("C01/overlaps-live-block/{}", what), format!("new [{:#x},{:#x}) overlaps live id {} [{:#x},{:#x}) ({})", addr, end, i, a, a + s, self.cur));
+            if matches!(what, "allocate" | "grow" | "grow_zeroed" | "shrink") {
+                rep.violate("C12", format!("C12/{}/returned-block-overlaps-live-block", what), format!("new [{:#x},{:#x}) overlaps live id {} [{:#x},{:#x}) ({})", addr, end, i, a, a + s, self.cur));
+            }
             return None;
         }
         rep.bump("c01.blocks_checked");
